@@ -445,6 +445,19 @@ func loopForm(info *types.Info, n ast.Node) (string, string) {
 				}
 			}
 		}
+		// worklist: `for len(stack) > 0 { pop ... push ... }` - the iterative form of a recursive walk; like the
+		// recursion it replaces it ends when the (finite, acyclic) structure it walks is exhausted
+		if be, ok := x.Cond.(*ast.BinaryExpr); ok && (be.Op == token.GTR || be.Op == token.NEQ) {
+			if call, ok := be.X.(*ast.CallExpr); ok && len(call.Args) == 1 {
+				if fnId, ok := call.Fun.(*ast.Ident); ok && fnId.Name == "len" {
+					if lit, ok := be.Y.(*ast.BasicLit); ok && lit.Value == "0" {
+						if st, ok := call.Args[0].(*ast.Ident); ok && popsIn(x.Body, st.Name) {
+							return "worklist", ""
+						}
+					}
+				}
+			}
+		}
 		// pointer-chasing / data-dependent condition
 		if k, ok := x.Cond.(*ast.Ident); ok && k.Name == "true" {
 			if hasBoundedExit(info, x) {
@@ -458,6 +471,28 @@ func loopForm(info *types.Info, n ast.Node) (string, string) {
 		return "unbounded", "loop condition is data dependent and no exit compares an induction variable with a bound"
 	}
 	return "unbounded", "unknown loop statement"
+}
+
+// popsIn: the body shortens the slice `name` by re-slicing it (stack = stack[:len(stack)-1] / stack[1:]).
+func popsIn(body *ast.BlockStmt, name string) bool {
+	found := false
+	ast.Inspect(body, func(n ast.Node) bool {
+		as, ok := n.(*ast.AssignStmt)
+		if !ok || len(as.Lhs) != 1 || len(as.Rhs) != 1 {
+			return true
+		}
+		l, ok := as.Lhs[0].(*ast.Ident)
+		if !ok || l.Name != name {
+			return true
+		}
+		if sl, ok := as.Rhs[0].(*ast.SliceExpr); ok {
+			if b, ok := sl.X.(*ast.Ident); ok && b.Name == name && (sl.High != nil || sl.Low != nil) {
+				found = true
+			}
+		}
+		return true
+	})
+	return found
 }
 
 func postModifies(post ast.Stmt, name string) bool {
@@ -581,11 +616,101 @@ func hasBoundedExit(info *types.Info, f *ast.ForStmt) bool {
 	return false
 }
 
+// chainStoreOK: a store into a link field keeps the chain finite and acyclic: it targets a freshly allocated object
+// (a new node pointing at an existing one), or it stores a freshly allocated object or nil (a new node appended behind
+// an existing one), or it targets the receiver of an unexported initialiser that is only ever called on a fresh object.
+func chainStoreOK(c *core.Ctx, st core.FieldAccess) bool {
+	fresh := func(v ssa.Value) bool {
+		v = core.Norm(v)
+		if _, ok := v.(*ssa.Alloc); ok {
+			return true
+		}
+		if call, ok := v.(*ssa.Call); ok {
+			if bi, isB := call.Common().Value.(*ssa.Builtin); isB && bi.Name() == "new" {
+				return true
+			}
+		}
+		return false
+	}
+	if fresh(st.Addr.X) {
+		return true
+	}
+	if core.IsNilConst(st.Store.Val) || fresh(st.Store.Val) {
+		return true
+	}
+	if p, ok := core.Norm(st.Addr.X).(*ssa.Parameter); ok {
+		fn := p.Parent()
+		if fn.Object() != nil && !fn.Object().Exported() && len(fn.Params) > 0 && fn.Params[0] == p && len(c.FuncValueUses(fn)) == 0 {
+			sites := c.CallSites(func(com *ssa.CallCommon) bool { return core.IsCallTo(com, fn) })
+			okAll := len(sites) > 0
+			for _, s := range sites {
+				if len(s.Common().Args) == 0 || !fresh(s.Common().Args[0]) {
+					okAll = false
+				}
+			}
+			return okAll
+		}
+	}
+	return false
+}
+
 // ssaLoopBounded decides the loop statement n on the SSA form, whatever its syntax: the natural loop it compiles to has
 // an induction variable (a header phi that every way round the loop increases by a positive constant) and a test of
 // that variable against a loop-invariant bound that leaves the loop when the variable is large, executed on every
 // iteration (the test's block dominates every latch).
 func ssaLoopBounded(c *core.Ctx, n ast.Node) bool {
+	fn, loop := ssaLoopOf(c, n)
+	if loop == nil {
+		return false
+	}
+	return ssaLoopBoundedIn(fn, loop)
+}
+
+// ssaChainWalkOf: the loop statement n, on the SSA form, follows one pointer field: a header phi whose every value
+// from inside the loop is a load of field F of the phi itself.  Returns the struct type and the field.
+func ssaChainWalkOf(c *core.Ctx, n ast.Node) (owner *types.Named, field string) {
+	_, loop := ssaLoopOf(c, n)
+	if loop == nil {
+		return nil, ""
+	}
+	for _, in := range loop.Header.Instrs {
+		phi, ok := in.(*ssa.Phi)
+		if !ok {
+			break
+		}
+		var fr core.FieldRef
+		okAll, cnt := true, 0
+		for i, e := range phi.Edges {
+			if !loop.Blocks[loop.Header.Preds[i]] {
+				continue
+			}
+			cnt++
+			ld, isLoad := e.(*ssa.UnOp)
+			if !isLoad || ld.Op != token.MUL {
+				okAll = false
+				break
+			}
+			fa, isFA := ld.X.(*ssa.FieldAddr)
+			if !isFA || core.Norm(fa.X) != ssa.Value(phi) {
+				okAll = false
+				break
+			}
+			f2, ok2 := core.FieldOfAddr(fa)
+			if !ok2 || (fr.Name != "" && fr != f2) {
+				okAll = false
+				break
+			}
+			fr = f2
+		}
+		if okAll && cnt > 0 && fr.Owner != nil {
+			return fr.Owner, fr.Name
+		}
+	}
+	return nil, ""
+}
+
+// ssaLoopOf locates the natural loop that the loop statement n compiles to.
+func ssaLoopOf(c *core.Ctx, n ast.Node) (*ssa.Function, *core.Loop) {
 	var fn *ssa.Function
 	for _, f := range c.Scope {
 		syn := f.Syntax()
@@ -597,7 +722,7 @@ func ssaLoopBounded(c *core.Ctx, n ast.Node) bool {
 		}
 	}
 	if fn == nil {
-		return false
+		return nil, nil
 	}
 	var loop *core.Loop
 	for _, l := range core.Loops(fn) {
@@ -619,19 +744,29 @@ func ssaLoopBounded(c *core.Ctx, n ast.Node) bool {
 			loop = l
 		}
 	}
-	if loop == nil {
-		return false
-	}
+	return fn, loop
+}
+
+func ssaLoopBoundedIn(fn *ssa.Function, loop *core.Loop) bool {
 	var latches []*ssa.BasicBlock
 	for _, p := range loop.Header.Preds {
 		if loop.Blocks[p] {
 			latches = append(latches, p)
 		}
 	}
-	invariant := func(v ssa.Value) bool {
+	var invariant func(v ssa.Value) bool
+	invariant = func(v ssa.Value) bool {
 		switch x := v.(type) {
 		case *ssa.Const, *ssa.Parameter, *ssa.FreeVar, *ssa.Global:
 			return true
+		case *ssa.Call:
+			// len / cap of something the loop does not redefine
+			if bi, ok := x.Common().Value.(*ssa.Builtin); ok && (bi.Name() == "len" || bi.Name() == "cap") && len(x.Common().Args) == 1 {
+				if invariant(x.Common().Args[0]) {
+					return true
+				}
+			}
+			return !loop.Blocks[x.Block()]
 		case ssa.Instruction:
 			return !loop.Blocks[x.Block()]
 		}
@@ -762,7 +897,7 @@ func c02Loops(c *core.Ctx, r *core.Report, pkgs []string, rule string) {
 			stores, _ := c.FieldAccesses(owner, parts[2])
 			okCtor := owner != nil && len(stores) > 0
 			for _, st := range stores {
-				if _, fresh := core.Norm(st.Addr.X).(*ssa.Alloc); !fresh {
+				if !chainStoreOK(c, st) {
 					okCtor = false
 				}
 			}
@@ -775,6 +910,20 @@ func c02Loops(c *core.Ctx, r *core.Report, pkgs []string, rule string) {
 		if ssaLoopBounded(c, l.Node) {
 			forms["unbounded"]--
 			forms["bounded-exit(ssa)"]++
+			continue
+		}
+		if owner, field := ssaChainWalkOf(c, l.Node); owner != nil {
+			// a walk along a pointer field, whatever its exit test looks like
+			stores, _ := c.FieldAccesses(owner, field)
+			okCtor := len(stores) > 0
+			for _, st := range stores {
+				if !chainStoreOK(c, st) {
+					okCtor = false
+				}
+			}
+			forms["unbounded"]--
+			forms["chain-walk(ssa)"]++
+			r.Check(okCtor, rule, cons, c.Pos(l.Node.Pos()), "chain walk along "+owner.Obj().Name()+"."+field+": the field is only ever given a fresh object, or stored into a fresh object, so the chain is finite and acyclic")
 			continue
 		}
 		r.Fail(rule, cons, c.Pos(l.Node.Pos()), "loop has no bounded form: "+why)
